@@ -23,10 +23,10 @@ EXC_DISCHARGE = [
     dict(fn="spil.sid.sid.BaseSid.__new__", kind="call:builtins.getattr", exc="AttributeError",
          why="fn is the second element of _factory, a function defined in that module", cond="factory_resolves"),
     # ---- the registered resolvers -------------------------------------------------------------------
-    dict(fn="spil.sid.core.sid_resolver.sid_to_dict", kind="none-deref:resolva.resolver.Resolver.get", exc="AttributeError",
+    dict(fn="spil.sid.core.sid_resolver.sid_to_dict", kind="none-deref:resolva.resolver.Resolver.get", exc="*",
          why="Resolver.get('sid') answers None only for an id nobody registered; spil.conf.sid_conf_load registers 'sid' at import, "
              "before any Sid can be built", cond="resolvers_registered"),
-    dict(fn="spil.sid.pathops.fs_resolver.path_to_dict", kind="none-deref:resolva.resolver.Resolver.get", exc="AttributeError",
+    dict(fn="spil.sid.pathops.fs_resolver.path_to_dict", kind="none-deref:resolva.resolver.Resolver.get", exc="*",
          why="Resolver.get(pc.name): PathConfig.__init__ registers a resolver under its own name before get_path_config hands the "
              "PathConfig out", cond="resolvers_registered"),
     # ---- SpilException construction ----------------------------------------------------------------
